@@ -134,12 +134,18 @@ func readDiff(s string) (Diff, error) {
 				if err != nil {
 					return errorfAt(i, "Invalid context. %v", err.Error())
 				}
+				if isVoid(b) {
+					return errorfAt(i, "Invalid context. Expecting a JSON value")
+				}
 				de.Before = append(de.Before, b)
 				state = BEFORE
 			case state == ADD || state == REMOVE || state == AFTER:
 				a, err := ReadJsonString(dl[1:])
 				if err != nil {
 					return errorfAt(i, "Invalid context. %v", err.Error())
+				}
+				if isVoid(a) {
+					return errorfAt(i, "Invalid context. Expecting a JSON value")
 				}
 				de.After = append(de.After, a)
 				// Accumulate after context
@@ -152,12 +158,19 @@ func readDiff(s string) (Diff, error) {
 			if err != nil {
 				return errorfAt(i, "Invalid value. %v", err.Error())
 			}
+			if isVoid(v) {
+				return errorfAt(i, "Invalid value. Expecting a JSON value after -")
+			}
 			de.Remove = append(de.Remove, v)
 			state = REMOVE
 		case "+":
 			v, err := ReadJsonString(dl[1:])
 			if err != nil {
 				return errorfAt(i, "Invalid value. %v", err.Error())
+			}
+			if isVoid(v) && !de.Metadata.Merge {
+				// Only a merge hunk writes void (deletes) with a bare +.
+				return errorfAt(i, "Invalid value. Expecting a JSON value after +")
 			}
 			de.Add = append(de.Add, v)
 			state = ADD
